@@ -98,8 +98,9 @@ theorem transfer_ok_exact {remote : Bytes} {maxReq chunk : Nat} (hm : 0 < maxReq
       · simp only [he, Bool.false_eq_true, if_false] at h
         exact ih (loc ++ d) plan' b (isSl_append hl (by simpa using s1)) h
 
-theorem getfo_ok_exact {remote : Bytes} {maxReq chunk statCode openCode : Nat} {plan : List RdOut} {fuel : Nat} {b : Bytes}
-    (hm : 0 < maxReq) (hc : 0 < chunk) (h : getfo remote maxReq chunk statCode openCode plan fuel = .ok b) : b = remote := by
+theorem getfo_ok_exact {remote : Bytes} {maxReq chunk statCode openCode : Nat} {plan : List RdOut} {fuel reported : Nat}
+    {b : Bytes} (hm : 0 < maxReq) (hc : 0 < chunk)
+    (h : getfo remote maxReq chunk statCode openCode plan fuel reported = .ok b) : b = remote := by
   unfold getfo at h
   split at h
   · cases h
